@@ -8,7 +8,7 @@ that the loader and the renderer use), and the registry of a loaded manager.
 * `EN.isVoid cfg name` is the void test of `EN.tagItem` (`tagItem_act`: definitional); it depends on `lowerS name` only;
 * `LeafyN P` : every node of a tree whose data satisfies `P` has no children and no end tag; builder invariant
   `assemble_leafy`; preserved by `annotate` and by the fragments that `addDefined` registers;
-* `mapN g` : relabelling of a tree; `assemble` commutes with relabellings that keep `value` (`assemble_map`);
+* `mapN g` : relabelling of a tree; `assemble` commutes with relabellings that keep `value` (`vassemble_map`);
 * `AdjKids` : two consecutive items `leaf, non-close` end up as consecutive children of one node (`assemble_adj`);
 * §5: the leaf invariant for the abstract builder `TB.build` (`TB.build_void_leafy`).
 Core-only. -/
@@ -318,43 +318,43 @@ theorem mapL_eq_map (g : NodeD → NodeD) : ∀ ks : List Node, mapL g ks = ks.m
 theorem mapL_reverse (g : NodeD → NodeD) (ks : List Node) : mapL g ks.reverse = (mapL g ks).reverse := by
   simp [mapL_eq_map]
 
-def mapItem (g : NodeD → NodeD) (it : Item) : Item := ⟨g it.d, it.act⟩
-def mapFrame (g : NodeD → NodeD) (fr : Frame) : Frame := ⟨g fr.d, mapL g fr.before⟩
-def mapBS (g : NodeD → NodeD) (bs : BS) : BS := ⟨bs.stack.map (mapFrame g), mapL g bs.cur⟩
+def vmapItem (g : NodeD → NodeD) (it : Item) : Item := ⟨g it.d, it.act⟩
+def vmapFrame (g : NodeD → NodeD) (fr : Frame) : Frame := ⟨g fr.d, mapL g fr.before⟩
+def vmapBS (g : NodeD → NodeD) (bs : BS) : BS := ⟨bs.stack.map (vmapFrame g), mapL g bs.cur⟩
 
-theorem stepItem_map (g : NodeD → NodeD) (hg : ∀ d, (g d).value = d.value) (bs : BS) (it : Item) :
-    mapBS g (stepItem bs it) = stepItem (mapBS g bs) (mapItem g it) := by
+theorem vstepItem_map (g : NodeD → NodeD) (hg : ∀ d, (g d).value = d.value) (bs : BS) (it : Item) :
+    vmapBS g (stepItem bs it) = stepItem (vmapBS g bs) (vmapItem g it) := by
   unfold stepItem
   cases ha : it.act with
-  | leaf => simp [mapItem, ha, mapBS, mapL, mapN]
-  | open_ => simp [mapItem, ha, mapBS, mapL, mapFrame]
+  | leaf => simp [vmapItem, ha, vmapBS, mapL, mapN]
+  | open_ => simp [vmapItem, ha, vmapBS, mapL, vmapFrame]
   | close =>
     cases hst : bs.stack with
-    | nil => simp [mapItem, ha, mapBS, mapL, mapN, hst]
-    | cons fr rest => simp [mapItem, ha, mapBS, mapL, mapN, hst, mapFrame, mapL_reverse, hg]
+    | nil => simp [vmapItem, ha, vmapBS, mapL, mapN, hst]
+    | cons fr rest => simp [vmapItem, ha, vmapBS, mapL, mapN, hst, vmapFrame, mapL_reverse, hg]
 
 theorem foldl_map (g : NodeD → NodeD) (hg : ∀ d, (g d).value = d.value) : ∀ (items : List Item) (bs : BS),
-    mapBS g (items.foldl stepItem bs) = (items.map (mapItem g)).foldl stepItem (mapBS g bs)
+    vmapBS g (items.foldl stepItem bs) = (items.map (vmapItem g)).foldl stepItem (vmapBS g bs)
   | [], _ => rfl
   | it :: rest, bs => by
     simp only [List.foldl_cons, List.map_cons]
-    rw [foldl_map g hg rest, stepItem_map g hg]
+    rw [foldl_map g hg rest, vstepItem_map g hg]
 
-theorem closeAll_map (g : NodeD → NodeD) : ∀ (stack : List Frame) (cur : List Node),
-    mapL g (closeAll stack cur) = closeAll (stack.map (mapFrame g)) (mapL g cur)
+theorem vcloseAll_map (g : NodeD → NodeD) : ∀ (stack : List Frame) (cur : List Node),
+    mapL g (closeAll stack cur) = closeAll (stack.map (vmapFrame g)) (mapL g cur)
   | [], _ => rfl
   | fr :: rest, cur => by
     simp only [closeAll, List.map_cons]
-    rw [closeAll_map g rest]
-    simp [mapL, mapN, mapFrame, mapL_reverse]
+    rw [vcloseAll_map g rest]
+    simp [mapL, mapN, vmapFrame, mapL_reverse]
 
 /-- the tree of relabelled items is the relabelled tree -/
-theorem assemble_map (g : NodeD → NodeD) (hg : ∀ d, (g d).value = d.value) (hroot : g rootD = rootD) (items : List Item) :
-    mapN g (assemble items) = assemble (items.map (mapItem g)) := by
+theorem vassemble_map (g : NodeD → NodeD) (hg : ∀ d, (g d).value = d.value) (hroot : g rootD = rootD) (items : List Item) :
+    mapN g (assemble items) = assemble (items.map (vmapItem g)) := by
   unfold assemble
   have h := foldl_map g hg items ⟨[], []⟩
-  simp only [mapN, hroot, mapL_reverse, closeAll_map]
-  have e : mapBS g ⟨[], []⟩ = ⟨[], []⟩ := rfl
+  simp only [mapN, hroot, mapL_reverse, vcloseAll_map]
+  have e : vmapBS g ⟨[], []⟩ = ⟨[], []⟩ := rfl
   rw [e] at h
   rw [← h]
   rfl
@@ -384,12 +384,12 @@ theorem mapRes_congr {α β : Type} {f g : α → β} (h : ∀ x, f x = g x) (r 
 
 theorem tagItem_recase (cfg : Cfg) (id : Nat) (value n n' : String) (attrs : List CAttr)
     (hv : isVoid cfg n = true) (hl : lowerS n' = lowerS n) :
-    mapItem lowD (tagItem cfg id value n' attrs) = mapItem lowD (tagItem cfg id value n attrs) := by
+    vmapItem lowD (tagItem cfg id value n' attrs) = vmapItem lowD (tagItem cfg id value n attrs) := by
   have hv' : isVoid cfg n' = true := by rw [isVoid_congr cfg hl]; exact hv
-  simp only [mapItem, tagItem_void _ _ _ _ _ hv, tagItem_void _ _ _ _ _ hv', tagItem_d, lowD, hl]
+  simp only [vmapItem, tagItem_void _ _ _ _ _ hv, tagItem_void _ _ _ _ _ hv', tagItem_d, lowD, hl]
 
 theorem compileTok_recase (cfg : Cfg) (id : Nat) (t t' : HS.Token) (tbl : Tbl) (h : RecasedVoid cfg t t') :
-    mapRes (mapItem lowD) (compileTok cfg id t' tbl) = mapRes (mapItem lowD) (compileTok cfg id t tbl) := by
+    mapRes (vmapItem lowD) (compileTok cfg id t' tbl) = mapRes (vmapItem lowD) (compileTok cfg id t tbl) := by
   rcases h with rfl | ⟨tg, name', htag, hv, hl, rfl⟩
   · rfl
   · obtain ⟨kind, value, start, stop, tag⟩ := t
@@ -409,8 +409,8 @@ theorem mapRes_eq_cases {α β : Type} {f : α → β} {r r' : LoadRes α × Tbl
   cases r1 <;> cases r1' <;> simp [mapRes, LoadRes.map] at h ⊢ <;> simp [h]
 
 theorem compileToks_recase (cfg : Cfg) {toks toks' : List HS.Token} (h : Aligned (RecasedVoid cfg) toks toks') :
-    ∀ (id : Nat) (tbl : Tbl), mapRes (List.map (mapItem lowD)) (compileToks cfg id toks' tbl) =
-      mapRes (List.map (mapItem lowD)) (compileToks cfg id toks tbl) := by
+    ∀ (id : Nat) (tbl : Tbl), mapRes (List.map (vmapItem lowD)) (compileToks cfg id toks' tbl) =
+      mapRes (List.map (vmapItem lowD)) (compileToks cfg id toks tbl) := by
   induction h with
   | nil => intro id tbl; rfl
   | @cons t t' ts ts' hr _ ih =>
@@ -425,8 +425,8 @@ theorem compileToks_recase (cfg : Cfg) {toks toks' : List HS.Token} (h : Aligned
     rcases hc with ⟨x, x', rfl, rfl, hx⟩ | ⟨rfl, rfl⟩ | ⟨rfl, rfl⟩ | ⟨rfl, rfl⟩
     · simp only [bindRes, mapRes_mapRes, List.map_cons, hx]
       have := ih (id + 1) tb1'
-      rw [← mapRes_mapRes (fun l => mapItem lowD x :: l) (List.map (mapItem lowD)),
-        ← mapRes_mapRes (fun l => mapItem lowD x :: l) (List.map (mapItem lowD)), this]
+      rw [← mapRes_mapRes (fun l => vmapItem lowD x :: l) (List.map (vmapItem lowD)),
+        ← mapRes_mapRes (fun l => vmapItem lowD x :: l) (List.map (vmapItem lowD)), this]
     all_goals rfl
 
 /-! ## 4. position: a leaf item followed by an item that is not an end tag — consecutive children of one node -/
